@@ -578,7 +578,13 @@ Definition mon_cmdfault (t : rtree) (paths : list path) (prev : N) (view : list 
        else match f with FInternal _ => 2 | FDead _ => 8 end)
     else 0.
 
-Fixpoint mon_ops3 (t : rtree) (paths : list path) (prev : N) (view : list (N * N))
+(* [gone]: a critical task failed before the watcher subscribed and the environment stayed
+   CONFIGURED (class 3): the watcher never entered its loop, so every later failure goes
+   unhandled as well - the same defect, reported as class 3 *)
+Definition regone (gone : bool) (c : N) : N :=
+  if gone && (N.eqb c 1 || N.eqb c 9) then 3 else c.
+
+Fixpoint mon_ops3 (gone : bool) (t : rtree) (paths : list path) (prev : N) (view : list (N * N))
          (ops : list sop) (obs : list wobs) : list N :=
   match obs with
   | [] => []
@@ -586,11 +592,12 @@ Fixpoint mon_ops3 (t : rtree) (paths : list path) (prev : N) (view : list (N * N
       match ops with
       | [] => [14]
       | o :: ops' =>
-          (match o with
-           | SCmd _ _ => 0                         (* plain requests are C02's business *)
-           | SFault f _ => mon_fault t paths prev view f ob
-           | SCmdFault e f oc => mon_cmdfault t paths prev view e f oc ob
-           end) :: mon_ops3 t paths (wo_state ob) (wo_tasks ob) ops' obs'
+          regone gone
+            (match o with
+             | SCmd _ _ => 0                         (* plain requests are C02's business *)
+             | SFault f _ => mon_fault t paths prev view f ob
+             | SCmdFault e f oc => mon_cmdfault t paths prev view e f oc ob
+             end) :: mon_ops3 gone t paths (wo_state ob) (wo_tasks ob) ops' obs'
       end
   end.
 
@@ -616,8 +623,8 @@ Definition mon_codes3 (c : c03_case) : list N :=
   match c3_obs c with
   | [] => [14]
   | ob :: obs' =>
-      mon_create3 (i_tree i) (i_paths i) (i_early i) ob ::
-      mon_ops3 (i_tree i) (i_paths i) (wo_state ob) (wo_tasks ob) (i_ops i) obs'
+      let c0 := mon_create3 (i_tree i) (i_paths i) (i_early i) ob in
+      c0 :: mon_ops3 (N.eqb c0 3) (i_tree i) (i_paths i) (wo_state ob) (wo_tasks ob) (i_ops i) obs'
   end.
 Definition mon03 (c : c03_case) : N := pick03 (mon_codes3 c).
 
